@@ -18,6 +18,7 @@ sys.path.insert(0, VERIF)
 
 ENGINE_OF = {
     "C01": "chan", "C02": "chan", "C03": "chan",
+    "C04": "rt", "C05": "rt", "C06": "rt", "C07": "rt", "C08": "rt", "C09": "rt", "C10": "rt",
     "C11": "hal",
     "C12": "dm",
     "C13": "props",
